@@ -166,4 +166,18 @@ theorem C16.source_order :
     idxA Gen.evAnnounceTraversal "close" < Gen.evAnnounceTraversal.length := by
   decide +kernel
 
+/-- T1: "always finishes" rests on the traversal never missing a wake-up. The stop waiter tests
+`outstanding`, fetches the condition channel and only then unlocks and sleeps on it; the run loop does
+the same; and every query completion decrements and broadcasts under the lock. (With the channel
+fetched after the unlock the model loses the wake-up: `C03.lost_wakeup_if_signaled_after_unlock`.) -/
+theorem C16.traversal_wakeups_source_order :
+    idxA Gen.evStop "if:op.outstanding == 0" < idxA Gen.evStop "op.cond.Signaled" ∧
+    Gen.evStop.getD (idxA Gen.evStop "op.cond.Signaled" + 1) "" = "op.mu.Unlock" ∧
+    Gen.evStop.getD (idxA Gen.evStop "op.cond.Signaled" + 2) "" = "recv:cond" ∧
+    Gen.evRun.getD (idxA Gen.evRun "op.cond.Signaled" + 1) "" = "op.mu.Unlock" ∧
+    Gen.evRun.getD (idxA Gen.evRun "op.cond.Signaled" + 2) "" = "select{" ∧
+    idxA Gen.evStartQuery "op.mu.Lock" < idxA Gen.evStartQuery "op.outstanding--" ∧
+    Gen.evStartQuery.getD (idxA Gen.evStartQuery "op.outstanding--" + 1) "" = "op.cond.Broadcast" := by
+  decide +kernel
+
 end Dht
